@@ -183,6 +183,14 @@ def run(res, b, tier, seed):
                 c = pipeline.Case("p%d_%s" % (pi, vname), {"main.tsh": v}, meta=dict(orig=False, pi=pi))
                 cases.append(c)
                 members.append(c)
+        # blank and comment-only lines in FRONT of the program (two and more: round 9, C12-B - only one leading line break skipped
+        # before an import section)
+        if pi % 3 == 0 or b"import" in src:
+            for vname, v in (("lead2", b"\n\n" + src), ("lead-comments", b"// header\n// second line\n\n" + src), ("lead-block", b"/* header */\n\t\n/* x */\n" + src),
+                             ("lead-crlf", b"\r\n\r\n\r\n" + src)):
+                c = pipeline.Case("p%d_%s" % (pi, vname), {"main.tsh": v}, meta=dict(orig=False, pi=pi))
+                cases.append(c)
+                members.append(c)
         if lx is not None:
             for j in range(k):
                 v = relayout(rng, lx)
